@@ -167,6 +167,17 @@ def run(ctx, prog):
     # the engine-level funnel refuses every rejection class of the index before the log (same table as C03.R1): an item refused after the
     # append is answered with an error, but its compensating Delete erases the previously acknowledged version on replay
     C03.rejection_classes(ctx, prog, 'C15.R2', eff)
+    # tenant-local ids beyond 32 bits are refused before anything reaches the engine (same instance as C10.R2): accepted, they alias another document
+    from rules import C10 as _c10
+    _c10.id_range_refusal(ctx, prog, 'C15.R2')
+    mp_ = ctx.body('C15.R2', 'KyroDBServiceImpl::map_doc_id')
+    if mp_ is not None:
+        mo_ = flow.Origin(mp_)
+        tgc = [c for c in mp_.calls if c.callee and c.callee.endswith('TenantIdMapper::to_global_doc_id')]
+        use_ = util.result_use(mp_, tgc[0]) if tgc else 'missing'
+        r_ = flow.render(mo_.of_local(0))
+        ctx.inst('C15.R2', mp_.short, 'map_doc_id hands the range refusal to the caller (INVALID_ARGUMENT)', bool(tgc) and ('to_global_doc_id' in r_) and use_ in ('propagated', 'returned', 'continues'),
+                 'to_global_doc_id result is %s; map_doc_id returns %s' % (use_, r_[:120]))
     # ------------------------------------------------------------------ R3
     ctx.rule('C15.R3', 'search validation: validate_search_request refuses empty, over-long and non-finite queries, k = 0, k > MAX_KNN_K and '
                        'ef_search > 10000; both search executors call it and reach the engine only past its success; nothing else in the binary '
